@@ -6,7 +6,7 @@ from hypothesis import strategies as st
 
 from torchjd import backward, mtl_backward
 from torchjd.aggregation import Sum
-from vlib import jdcheck, programs as P
+from vlib import jdcheck, large, programs as P
 from vlib.probes import Recording
 from vlib.matrices import eps_of
 from vlib.runner import Outcome, Part
@@ -84,7 +84,13 @@ def _case(draw):
 
 def parts(tier):
     n = 3_000 if tier == "quick" else 80_000
-    return [Part("generated", "given", n=n, strategy=_case)]
+    return [Part("generated", "given", n=n, strategy=_case),
+            # hundreds of rows in ONE batched differentiation (parallel_chunk_size None or >= 256): an implementation that
+            # splits the batch internally must not free the graph before the last piece
+            Part("many_rows", "given", n=32 if tier == "quick" else 480,
+                 strategy=lambda: large.cases("backward", tall=True, retain_flag=True)),
+            Part("many_tasks", "given", n=16 if tier == "quick" else 240,
+                 strategy=lambda: large.cases("mtl", tall=True, retain_flag=True))]
 
 
 def _is_freed_error(e):
@@ -179,6 +185,8 @@ def _probe(g, prog):
 
 def run_case(case) -> Outcome:
     out = Outcome()
+    if case.get("kind") == "large":
+        return large.run(case, out)
     prog, dtype = case["prog"], case["prog"]["dtype"]
     dual = P.run_dual(prog)
     if not jdcheck.scale_ok(dtype, dual.max_abs):
